@@ -128,13 +128,14 @@ def run(c):
         lambda: model("BlockLiftModel", "kron2x3", N=2, BS=3, Modes=NOSIGN, coverage=True),
     ]
     if th:
-        jobs += [
-            lambda: model("AggregatesModel", "di5", N=5, Modes="{1, 19}", invariants=AGINV, workers=4),
+        jobs = [
+            lambda: model("AggregatesModel", "di5", N=5, Modes="{19}", invariants=AGINV, workers=5),
+            lambda: model("RugeStubenModel", "sym6more", N=6, Sym="TRUE", Modes="{15, 22}", EpsDens="{4}", TruncDens="{0, 2}", invariants=RSINV, workers=5),
+        ] + jobs + [
             lambda: model("AggregatesModel", "sym6", N=6, Sym="TRUE", Modes=NOSIGN, invariants=AGINV, workers=3),
             lambda: model("SmoothedModel", "sym5", N=5, Sym="TRUE", Modes=ALL, OmegaCodes="{23, 12}", workers=3),
-            lambda: model("RugeStubenModel", "sym6all", N=6, Sym="TRUE", Modes=M4, invariants=RSINV, workers=4),
-            lambda: model("RugeStubenModel", "di5", N=5, Modes="{22}", EpsDens="{4}", TruncDens="{2}", invariants=RSINV, workers=4),
             lambda: model("BlockLiftModel", "gen2x2", N=2, BS=2, Modes="{0}", GenMasks="0..65535", workers=3),
+            lambda: model("SmoothedModel", "kron2x3", N=2, BS=3, Modes=ALL, OmegaCodes="{12, 23}"),
         ]
 
     # ------------------------------------------------------------------ the real code
@@ -148,14 +149,14 @@ def run(c):
         ("enum4-agg", ["enum", 4, 0, "p", "1,7,13,19,0", S or 3], 2000),
         ("enum4", ["enum", 4, 0, "asr", "7,9,15,22", S or 10], 1000),
         ("enum4-block", ["enum", 4, 0, "lS", "7,22", S or 16], 300),
-        ("sym5", ["enum", 5, 1, "psr", "all", S or 10], 1200),
-        ("sym6", ["enum", 6, 1, "r", "19,21", S or 16], 800),
+        ("sym5", ["enum", 5, 1, "psr", "all", 2 if th else 10], 1200),
+        ("sym6", ["enum", 6, 1, "r", "19,21", 2 if th else 16], 800),
         ("random", ["random"], 40),
         ("nullspace", ["ns"], 60),
         ("poison", ["poison"], 200),
     ]
     if th:
-        runs += [("sym6-sa", ["enum", 6, 1, "ps", "7,21", 4], 1500), ("di5", ["enum", 5, 0, "pr", "7,22", 64], 1500)]
+        runs += [("sym6-sa", ["enum", 6, 1, "ps", "7,21", 8], 1500), ("di5", ["enum", 5, 0, "pr", "7,22", 128], 1500)]
     traces = []
     for label, args, chunk in runs:
         t = c.record(rc, args, out=c.path("co-%s.ndjson" % label), sig={"coarsening": "recorder", "clause": "crash"})
